@@ -69,11 +69,8 @@ From GS Require Import Repo RepoProofs Deferred Scan ScanMain ScanFinal Dispatch
    no single object size, name length or entry count reaches 2^32-1 ([small]) *)
 Theorem C05_composed : forall r enum roots names,
   wf_b r = true -> contract r (walked roots) enum -> small r ->
-  match scan r enum roots names with
-  | SOk evs => history_of evs = sat_census (spec_census r (walked roots)) (nrefs_of roots)
-  | SPanic m => m = P_FUEL
-  | SErr _ => False
-  end.
+  exists evs, scan r enum roots names = SOk evs /\
+              history_of evs = sat_census (spec_census r (walked roots)) (nrefs_of roots).
 Proof. exact scan_correct. Qed.
 Print Assumptions C05_composed.
 
